@@ -832,7 +832,9 @@ func build(tier string) []explore.Scenario {
 			out = append(out, firstUseScenario(a, b, fb))
 		}
 	}
-	hists := [][]int{{0, 1, 2, 3}, {0, 4, 2, 3}, {4, 0, 3, 0}, {0, 1, 4, 5}, {5, 0, 2, 4}, {0, 3, 0, 1}, {0, 7, 1, 7}, {0, 4, 6, 1}, {4, 0, 6, 4}, {0, 1, 8, 4}, {0, 9, 10, 1}, {4, 0, 1, 8}, {0, 11, 11, 1}, {0, 1, 11, 4}}
+	hists := [][]int{{0, 1, 2, 3}, {0, 4, 2, 3}, {4, 0, 3, 0}, {0, 1, 4, 5}, {5, 0, 2, 4}, {0, 3, 0, 1}, {0, 7, 1, 7}, {0, 4, 6, 1}, {4, 0, 6, 4}, {0, 1, 8, 4}, {0, 9, 10, 1}, {4, 0, 1, 8}, {0, 11, 11, 1}, {0, 1, 11, 4},
+		// a type emptied while a type that sorts after it still holds resources (seed c10i: an empty per-type bucket ends the load)
+		{0, 5, 3, 4}, {5, 4, 6, 0}}
 	if tier == "thorough" {
 		hists = nil
 		var rec func(h []int)
